@@ -1309,7 +1309,7 @@ func (c *Compat) BitFieldRO(ctx context.Context, key string, args ...any) *IntSl
 }
 
 func (c *Compat) Scan(ctx context.Context, cursor uint64, match string, count int64) *ScanCmd {
-	cmd := c.client.B().Arbitrary("SCAN", strconv.FormatInt(int64(cursor), 10))
+	cmd := c.client.B().Arbitrary("SCAN", strconv.FormatUint(cursor, 10))
 	if match != "" {
 		cmd = cmd.Args("MATCH", match)
 	}
@@ -1321,7 +1321,7 @@ func (c *Compat) Scan(ctx context.Context, cursor uint64, match string, count in
 }
 
 func (c *Compat) ScanType(ctx context.Context, cursor uint64, match string, count int64, keyType string) *ScanCmd {
-	cmd := c.client.B().Arbitrary("SCAN", strconv.FormatInt(int64(cursor), 10))
+	cmd := c.client.B().Arbitrary("SCAN", strconv.FormatUint(cursor, 10))
 	if match != "" {
 		cmd = cmd.Args("MATCH", match)
 	}
@@ -1333,7 +1333,7 @@ func (c *Compat) ScanType(ctx context.Context, cursor uint64, match string, coun
 }
 
 func (c *Compat) SScan(ctx context.Context, key string, cursor uint64, match string, count int64) *ScanCmd {
-	cmd := c.client.B().Arbitrary("SSCAN").Keys(key).Args(strconv.FormatInt(int64(cursor), 10))
+	cmd := c.client.B().Arbitrary("SSCAN").Keys(key).Args(strconv.FormatUint(cursor, 10))
 	if match != "" {
 		cmd = cmd.Args("MATCH", match)
 	}
@@ -1345,7 +1345,7 @@ func (c *Compat) SScan(ctx context.Context, key string, cursor uint64, match str
 }
 
 func (c *Compat) HScan(ctx context.Context, key string, cursor uint64, match string, count int64) *ScanCmd {
-	cmd := c.client.B().Arbitrary("HSCAN").Keys(key).Args(strconv.FormatInt(int64(cursor), 10))
+	cmd := c.client.B().Arbitrary("HSCAN").Keys(key).Args(strconv.FormatUint(cursor, 10))
 	if match != "" {
 		cmd = cmd.Args("MATCH", match)
 	}
@@ -1357,7 +1357,7 @@ func (c *Compat) HScan(ctx context.Context, key string, cursor uint64, match str
 }
 
 func (c *Compat) HScanNoValues(ctx context.Context, key string, cursor uint64, match string, count int64) *ScanCmd {
-	cmd := c.client.B().Arbitrary("HSCAN").Keys(key).Args(strconv.FormatInt(int64(cursor), 10))
+	cmd := c.client.B().Arbitrary("HSCAN").Keys(key).Args(strconv.FormatUint(cursor, 10))
 	if match != "" {
 		cmd = cmd.Args("MATCH", match)
 	}
@@ -1370,7 +1370,7 @@ func (c *Compat) HScanNoValues(ctx context.Context, key string, cursor uint64, m
 }
 
 func (c *Compat) ZScan(ctx context.Context, key string, cursor uint64, match string, count int64) *ScanCmd {
-	cmd := c.client.B().Arbitrary("ZSCAN").Keys(key).Args(strconv.FormatInt(int64(cursor), 10))
+	cmd := c.client.B().Arbitrary("ZSCAN").Keys(key).Args(strconv.FormatUint(cursor, 10))
 	if match != "" {
 		cmd = cmd.Args("MATCH", match)
 	}
